@@ -27,6 +27,16 @@ def main():
         env = dict(os.environ, PYTHONHASHSEED="0", PYTHONDONTWRITEBYTECODE="1")
         os.execve(sys.executable, [sys.executable] + sys.argv, env)
 
+    if a.replay and not sys.flags.optimize:
+        # a replay file written by the optimised-interpreter pass is replayed in an interpreter started with -O
+        try:
+            import json
+
+            if "-O" in (json.load(open(a.replay)).get("python_flags") or []):
+                os.execve(sys.executable, [sys.executable, "-O"] + sys.argv, dict(os.environ))
+        except (OSError, ValueError, AttributeError):
+            pass
+
     sys.path.insert(0, HERE)
     from eglib import driver
 
